@@ -32,6 +32,7 @@ pub enum SForm {
     Seal,
     ObjSeal,
     ObjSealToVecbox,
+    ObjEncryptIntoVec,
 }
 
 #[derive(Clone, Copy, Debug, Serialize, Deserialize, PartialEq, Eq)]
@@ -48,6 +49,10 @@ pub enum RForm {
     SealOpen,
     ObjFromSealedBytesUnseal,
     ObjFromPartsUnsealToVec,
+    /// object API constructed from borrowed parts (with_data_and_mac / new_with_(epk_)data_and_mac)
+    ObjWithDataAndMac,
+    /// object API with `Vec<u8>` as the tag / key container (from_bytes / from_sealed_bytes)
+    ObjFromBytesVecMac,
     /// build N only: object API into the protected heap container
     ObjFromBytesHeap,
     ObjDecryptLocked,
@@ -68,12 +73,14 @@ impl RForm {
             RForm::SealOpen => "seal_open",
             RForm::ObjFromSealedBytesUnseal => "obj.from_sealed_bytes+unseal",
             RForm::ObjFromPartsUnsealToVec => "obj.from_parts+unseal_to_vec",
+            RForm::ObjWithDataAndMac => "obj.with_data_and_mac+decrypt",
+            RForm::ObjFromBytesVecMac => "obj.from_bytes<Vec mac>+decrypt",
             RForm::ObjFromBytesHeap => "obj.from_bytes<HeapBytes>+decrypt",
             RForm::ObjDecryptLocked => "obj.decrypt<LockedBytes>",
         }
     }
     fn combined(&self) -> bool {
-        matches!(self, RForm::OpenEasy | RForm::OpenEasyInplace | RForm::ObjFromBytesDecrypt | RForm::SealOpen | RForm::ObjFromSealedBytesUnseal | RForm::ObjFromBytesHeap)
+        matches!(self, RForm::OpenEasy | RForm::OpenEasyInplace | RForm::ObjFromBytesDecrypt | RForm::SealOpen | RForm::ObjFromSealedBytesUnseal | RForm::ObjFromBytesHeap | RForm::ObjFromBytesVecMac)
     }
     fn uses_symmetric_key(&self, suite: Suite) -> bool {
         suite == Suite::Secretbox || matches!(self, RForm::OpenDetachedAfternm | RForm::OpenDetachedAfternmInplace | RForm::ObjPrecalcDecrypt)
@@ -203,7 +210,7 @@ const SENTINEL: u8 = 0xC3;
 
 pub fn sender_forms(suite: Suite) -> &'static [SForm] {
     match suite {
-        Suite::Secretbox => &[SForm::Easy, SForm::Detached, SForm::EasyInplace, SForm::ObjEncrypt, SForm::ObjEncryptToVecbox],
+        Suite::Secretbox => &[SForm::Easy, SForm::Detached, SForm::EasyInplace, SForm::ObjEncrypt, SForm::ObjEncryptToVecbox, SForm::ObjEncryptIntoVec],
         Suite::Box => &[
             SForm::Easy,
             SForm::Detached,
@@ -221,7 +228,7 @@ pub fn sender_forms(suite: Suite) -> &'static [SForm] {
 
 pub fn receiver_forms(suite: Suite) -> Vec<RForm> {
     let mut v = match suite {
-        Suite::Secretbox => vec![RForm::OpenEasy, RForm::OpenDetached, RForm::OpenEasyInplace, RForm::ObjFromBytesDecrypt, RForm::ObjFromPartsDecryptToVec],
+        Suite::Secretbox => vec![RForm::OpenEasy, RForm::OpenDetached, RForm::OpenEasyInplace, RForm::ObjFromBytesDecrypt, RForm::ObjFromPartsDecryptToVec, RForm::ObjWithDataAndMac, RForm::ObjFromBytesVecMac],
         Suite::Box => vec![
             RForm::OpenEasy,
             RForm::OpenDetached,
@@ -232,8 +239,10 @@ pub fn receiver_forms(suite: Suite) -> Vec<RForm> {
             RForm::ObjFromBytesDecrypt,
             RForm::ObjFromPartsDecryptToVec,
             RForm::ObjPrecalcDecrypt,
+            RForm::ObjWithDataAndMac,
+            RForm::ObjFromBytesVecMac,
         ],
-        Suite::Sealed => vec![RForm::SealOpen, RForm::ObjFromSealedBytesUnseal, RForm::ObjFromPartsUnsealToVec],
+        Suite::Sealed => vec![RForm::SealOpen, RForm::ObjFromSealedBytesUnseal, RForm::ObjFromPartsUnsealToVec, RForm::ObjWithDataAndMac, RForm::ObjFromBytesVecMac],
     };
     if cfg!(feature = "nightly") {
         v.push(RForm::ObjFromBytesHeap);
@@ -318,6 +327,12 @@ impl BoxWorld {
             (Suite::Secretbox, SForm::ObjEncrypt) => {
                 let b: DryocSecretBox<dryoc::dryocsecretbox::Mac, Vec<u8>> = DryocSecretBox::encrypt(&plain, &nonce, &self.sb_key);
                 let v = b.to_vec();
+                mac.copy_from_slice(&v[..16]);
+                body.copy_from_slice(&v[16..]);
+            }
+            (Suite::Secretbox, SForm::ObjEncryptIntoVec) => {
+                let b = dryoc::dryocsecretbox::VecBox::encrypt_to_vecbox(&plain, &nonce, &self.sb_key);
+                let v = b.into_vec();
                 mac.copy_from_slice(&v[..16]);
                 body.copy_from_slice(&v[16..]);
             }
@@ -578,6 +593,36 @@ impl BoxWorld {
                 (Suite::Secretbox, RForm::ObjFromPartsDecryptToVec) => {
                     let b = dryoc::dryocsecretbox::VecBox::from_parts(d.mac.into(), d.body.clone());
                     b.decrypt_to_vec(&d.nonce, &d.key).map_err(|e| { err_text = Some(format!("{:?}", e)); e }).ok()
+                }
+                (Suite::Secretbox, RForm::ObjWithDataAndMac) => {
+                    let tag: dryoc::dryocsecretbox::Mac = d.mac.into();
+                    let b: DryocSecretBox<dryoc::dryocsecretbox::Mac, Vec<u8>> = DryocSecretBox::with_data_and_mac(tag, &d.body);
+                    b.decrypt::<Vec<u8>, _, _>(&d.nonce, &d.key).ok()
+                }
+                (Suite::Secretbox, RForm::ObjFromBytesVecMac) => {
+                    let b: DryocSecretBox<Vec<u8>, Vec<u8>> = DryocSecretBox::from_bytes(&d.combined).ok()?;
+                    b.decrypt::<Vec<u8>, _, _>(&d.nonce, &d.key).ok()
+                }
+                (Suite::Box, RForm::ObjWithDataAndMac) => {
+                    let tag: dryoc::dryocbox::Mac = d.mac.into();
+                    let b: DryocBox<dryoc::dryocbox::PublicKey, dryoc::dryocbox::Mac, Vec<u8>> = DryocBox::new_with_data_and_mac(tag, &d.body);
+                    b.decrypt::<_, _, _, Vec<u8>>(&d.nonce, &a_pk, &b_sk).ok()
+                }
+                (Suite::Box, RForm::ObjFromBytesVecMac) => {
+                    let b: DryocBox<Vec<u8>, Vec<u8>, Vec<u8>> = DryocBox::from_bytes(&d.combined).ok()?;
+                    b.decrypt::<_, _, _, Vec<u8>>(&d.nonce, &a_pk, &b_sk).ok()
+                }
+                (Suite::Sealed, RForm::ObjWithDataAndMac) => {
+                    let tag: dryoc::dryocbox::Mac = d.mac.into();
+                    let e: dryoc::dryocbox::PublicKey = p.epk.expect("sealed packet").into();
+                    let b: DryocBox<dryoc::dryocbox::PublicKey, dryoc::dryocbox::Mac, Vec<u8>> = DryocBox::new_with_epk_data_and_mac(e, tag, &d.body);
+                    let kp = dryoc::dryocbox::KeyPair::from_slices(&b_pk, &b_sk).expect("kp");
+                    b.unseal::<_, _, Vec<u8>>(&kp).ok()
+                }
+                (Suite::Sealed, RForm::ObjFromBytesVecMac) => {
+                    let b: DryocBox<Vec<u8>, Vec<u8>, Vec<u8>> = DryocBox::from_sealed_bytes(&d.combined).ok()?;
+                    let kp = dryoc::dryocbox::KeyPair::from_slices(&b_pk, &b_sk).expect("kp");
+                    b.unseal::<_, _, Vec<u8>>(&kp).ok()
                 }
                 (Suite::Box, RForm::OpenEasy) => {
                     let mut m = vec![SENTINEL; d.combined.len().saturating_sub(16)];
